@@ -281,6 +281,16 @@ pub fn generate(prop: &str, ctx: &mut Ctx, rep: &mut Report, emit: &mut dyn FnMu
         b.canonicals = (0..n).map(|_| gen_block(&mut rng, true)).collect();
         emit(ctx, rep, format!("{} {}", op, show_bundle(&b)));
     }
+    // the next width of an array head: 65 534 / 65 535 / 65 536 blocks after the primary block (65 536 and more
+    // array items need a five-byte head wherever a definite head is computed); small opaque blocks keep this cheap
+    if prop == "C01" || prop == "C02" || prop == "C04" {
+        for n in if ctx.tier_thorough { vec![65_534u64, 65_535, 65_536, 65_537] } else { vec![65_534, 65_535] } {
+            let mut b = gen_bundle(&mut rng, &Opts { wf: true, max_blocks: 0 });
+            b.canonicals = (0..n).map(|i| bp7::canonical::new_canonical_block(if i % 5 == 0 { 200 } else { 192 }, 2 + i, 0, bp7::canonical::CanonicalData::Unknown(vec![i as u8]))).collect();
+            b.canonicals.push(bp7::canonical::new_payload_block(bp7::flags::BlockControlFlags::empty(), vec![1, 2, 3]));
+            emit(ctx, rep, format!("{} {}", op, show_bundle(&b)));
+        }
+    }
     let n = ctx.n(3_000, 300_000);
     for i in 0..n {
         let mut b = gen_bundle(&mut rng, &Opts { wf: true, max_blocks: if i % 50 == 0 { 300 } else { 30 } });
